@@ -474,6 +474,23 @@ def mdl (b : Bytes) : Res Unit := do
   let m ← P.run modelFile b
   post b m
 
+/-! ## the code at the pinned commit (for the witness theorems of the repaired defects) -/
+
+/-- `vertex_element_parser` before `fixes/C18-50`: `NUM_VERTICES * 8 - (len + 1) * 8` unchecked -/
+def declarationUnfixed : P (List Element) := do
+  let e0 ← element
+  let els ← declElems e0
+  let n ← P.lift (subC (17 * 8) ((els.length + 1) * 8))
+  P.skip n
+  pure els
+
+/-- the name scan before `fixes/C18-52`: `strings[offset]` until a NUL (`fuel` ≥ length + 1) -/
+def nameScanUnfixed (strings : Bytes) : Nat → Nat → Res Unit
+  | 0, _ => .panic .fuel
+  | f + 1, o => do
+    let c ← indexF strings o
+    if c = 0 then .ok () else nameScanUnfixed strings f (o + 1)
+
 /-! ## retained memory — the input class of the recorded finding `mdl-overlap-amplification`
 
 Every single request of the reader is within the budget (`c18_mdl_alloc`), but nothing stops a file
